@@ -1477,7 +1477,7 @@ func NewBuildState(config *Configuration) *BuildState {
 		VerifyHashes:    true,
 		NeedBuild:       true,
 		XattrsSupported: config.Build.Xattrs,
-		Coverage:        TestCoverage{Files: map[string][]LineCoverage{}},
+		Coverage:        *NewTestCoverage(), // both maps must exist before the state is copied, or copies stop sharing them
 		TargetArch:      config.Build.Arch,
 		Arch:            cli.HostArch(),
 		stats:           &lockedStats{},
